@@ -29,7 +29,7 @@ BREAKING = [
     ('table-accept-range', 'C19', SPEC + 'regex.rs', r'matches!\(state, 24\.\.=32\)', 'matches!(state, 23..=32)', 'regex 2 accept range widened'),
     ('regex7-first-char', 'C19', SPEC + 'regex.rs', r"\(s\[0\]\.is_ascii_alphabetic\(\) \|\| s\[0\] == b'_'\)", 's[0].is_ascii_alphabetic()', 'regex 7 rejects leading underscore'),
     ('regex20-leading-zero', 'C19', SPEC + 'regex.rs', r"s\[0\] != b'0' && s\.iter\(\)\.all\(u8::is_ascii_digit\)", 's.iter().all(u8::is_ascii_digit)', 'regex 20 accepts leading zero'),
-    ('lexer-element-start-off-by-one', 'C02', MAIN + 'lexer.rs', r'\(&self\.buffer\[self\.bufpos \+ 1\.\.endpos - 1\], true\)', '(&self.buffer[self.bufpos + 1..endpos], true)', 'self-closing tag keeps the slash (token boundary; no panic)'),
+    ('lexer-element-start-off-by-one', 'C01', MAIN + 'lexer.rs', r'\(&self\.buffer\[self\.bufpos \+ 1\.\.endpos - 1\], true\)', '(&self.buffer[self.bufpos + 1..endpos], true)', 'self-closing tag keeps the slash (token boundary; no panic, so not a C02 matter: the model is no longer faithful -- C01; the existing tests fail with it anyway)'),
     ('lexer-line-double-count', 'C02', MAIN + 'lexer.rs', r'self\.line \+= count_lines\(text\);\n        self\.bufpos = endpos \+ 1;\n        ArxmlEvent::BeginElement', 'self.line += 2 * count_lines(text);\n        self.bufpos = endpos + 1;\n        ArxmlEvent::BeginElement', 'line numbers exceed the number of lines'),
     ('lexer-comment-short', 'C02', MAIN + 'lexer.rs', r'if text\.len\(\) < 6 \|\|', 'if text.len() < 5 ||', 'comment slice out of range for <!--->'),
     ('trim-revert', 'C02', MAIN + 'parser.rs', r'while len > 0 && input\[len - 1\]', 'while input[len - 1]', 'reintroduce the all-whitespace underflow'),
